@@ -340,6 +340,14 @@ class Rem(Stmt):
         self.text = text
 
 
+class Raw(Stmt):
+    """Verbatim statement text (fault injection); `alone`: own line."""
+    __slots__ = ('text', 'alone')
+
+    def __init__(self, text, alone=True):
+        self.text, self.alone = text, alone
+
+
 class Param(Node):
     """t element type; is_array for `a()` parameters; as_clause spelling."""
     __slots__ = ('name', 't', 'is_array', 'as_clause')
